@@ -704,9 +704,9 @@ pcm_read_uc2s (SF_PRIVATE *psf, short *ptr, sf_count_t len)
 
 static sf_count_t
 pcm_read_bes2s (SF_PRIVATE *psf, short *ptr, sf_count_t len)
-{	int		total ;
+{	sf_count_t	total ;
 
-	total = (int) psf_fread (ptr, sizeof (short), len, psf) ;
+	total = psf_fread (ptr, sizeof (short), len, psf) ;
 #if CPU_IS_LITTLE_ENDIAN
 	endswap_short_array (ptr, len) ;
 #endif
@@ -716,7 +716,7 @@ pcm_read_bes2s (SF_PRIVATE *psf, short *ptr, sf_count_t len)
 
 static sf_count_t
 pcm_read_les2s (SF_PRIVATE *psf, short *ptr, sf_count_t len)
-{	int		total ;
+{	sf_count_t	total ;
 
 	total = psf_fread (ptr, sizeof (short), len, psf) ;
 #if CPU_IS_BIG_ENDIAN
@@ -951,7 +951,7 @@ pcm_read_let2i (SF_PRIVATE *psf, int *ptr, sf_count_t len)
 
 static sf_count_t
 pcm_read_bei2i (SF_PRIVATE *psf, int *ptr, sf_count_t len)
-{	int		total ;
+{	sf_count_t	total ;
 
 	total = psf_fread (ptr, sizeof (int), len, psf) ;
 #if CPU_IS_LITTLE_ENDIAN
@@ -963,7 +963,7 @@ pcm_read_bei2i (SF_PRIVATE *psf, int *ptr, sf_count_t len)
 
 static sf_count_t
 pcm_read_lei2i (SF_PRIVATE *psf, int *ptr, sf_count_t len)
-{	int		total ;
+{	sf_count_t	total ;
 
 	total = psf_fread (ptr, sizeof (int), len, psf) ;
 #if CPU_IS_BIG_ENDIAN
